@@ -13,7 +13,8 @@ def rt_profile(**over):
                 p_nullable=0.35, p_subtypes=0.3, p_parent=0.5, n_types=(3, 9), n_routes=(1, 4),
                 p_annotations=0.3, p_custom_ann=0.2, max_omitted=0,
                 p_tag_named_like_member_field=0.25, p_marker_chain=0.15,
-                p_ts_offset_format=0.25, p_alias_of_alias=0.25, p_odd_alias_name=0.2)
+                p_ts_offset_format=0.25, p_alias_of_alias=0.25, p_odd_alias_name=0.2,
+                p_twin_subtype_trees=0.3)
     base.update(over)
     return gm.make_profile(**base)
 
